@@ -55,7 +55,9 @@ theorem fold_agrees (ty : Ty) (op : Op) (a b v : Int) (hop : Foldable op)
       = .ok (.replace (tyOf ty) v) := by
   obtain ⟨f, hf⟩ := Option.isSome_iff_exists.mp hop
   have hv := enhance_agrees ty op f a b v hf ha hb h
-  simp [onInstr, isConst, evalConst, hf, hv]
+  have he : evalConst (.binop (tyOf ty) op.symbol (.const (tyOf ty) a) (.const (tyOf ty) b)) = .ok (tyOf ty, v) := by
+    simp [evalConst, hf, hv]
+  simp [onInstr, isConst, hf, tryEvalConst_of_ok _ _ he]
 
 /-- **Range.** Whatever the operand values (in range or not, operation defined or not): a constant
     created for a `Binop` has the instruction's type and lies in that type's range. -/
@@ -64,10 +66,11 @@ theorem fold_in_range (ty : Ty) (op : String) (a b : Expr) (t : Typ) (r : Int)
   simp only [onInstr] at h
   split at h
   · split at h
+    · simp at h
+    · simp at h
     · rename_i t' v' heq
       simp at h; obtain ⟨h1, h2⟩ := h; subst h1 h2
-      exact evalConst_binop_inRange ty op a b _ _ heq
-    · simp at h
+      exact evalConst_binop_inRange ty op a b _ _ (evalConst_of_tryEvalConst _ _ heq)
   · repeat' split at h
     all_goals try (simp at h; done)
 
@@ -77,10 +80,11 @@ theorem cast_in_range (ty : Ty) (src : Expr) (t : Typ) (r : Int)
   simp only [onInstr] at h
   split at h
   · split at h
+    · simp at h
+    · simp at h
     · rename_i t' v' heq
       simp at h; obtain ⟨h1, h2⟩ := h; subst h1 h2
-      exact evalConst_cast_inRange ty src _ _ heq
-    · simp at h
+      exact evalConst_cast_inRange ty src _ _ (evalConst_of_tryEvalConst _ _ heq)
   · simp at h
 
 /-- operators outside the table (`/ & | ^`) are never folded. -/
@@ -96,7 +100,7 @@ theorem cast_agrees (src to : Ty) (v : Int) :
     onInstr (.cast (tyOf to) (.const (tyOf src) v)) = .ok (.replace (tyOf to) (Spec.IRArith.cast to v))
     ∧ InRange to (Spec.IRArith.cast to v) := by
   refine ⟨?_, cast_inRange to v⟩
-  simp [onInstr, isConst, evalConst, Model.ConstFold.cast, correct_eq_wrap, Spec.IRArith.cast]
+  simp [onInstr, isConst, tryEvalConst, evalConst, Model.ConstFold.cast, correct_eq_wrap, Spec.IRArith.cast]
 
 /-! ### nested constant expressions (`eval_const` recurses) -/
 
@@ -114,8 +118,8 @@ theorem tree_replaced (e : SExpr) (v : Int) (hwf : e.WF) (hf : AllFoldable e) (h
   obtain ⟨h1, h2, _⟩ := tree_agrees e v hwf hf h
   cases e with
   | const ty c => exact absurd rfl (hnc ty c)
-  | cast ty s => simp only [embed] at h1 h2 ⊢; simp [onInstr, h1, h2]
-  | binop ty op a b => simp only [embed] at h1 h2 ⊢; simp [onInstr, h1, h2]
+  | cast ty s => simp only [embed] at h1 h2 ⊢; simp [onInstr, h1, tryEvalConst_of_ok _ _ h2]
+  | binop ty op a b => simp only [embed] at h1 h2 ⊢; simp [onInstr, h1, tryEvalConst_of_ok _ _ h2]
 
 /-! ### chain rewrites  (y ∘ c1) ∘ c2  ↦  y ∘ c3   for ∘ ∈ {+, -} -/
 
@@ -135,9 +139,11 @@ theorem chain_sound (ty : Ty) (op : Op) (hop : op = .add ∨ op = .sub) (y : Exp
   obtain ⟨a1, a2, _⟩ := evalConst_embed c1 v1 hw1 hf1 he1
   obtain ⟨b1, b2, _⟩ := evalConst_embed c2 v2 hw2 hf2 he2
   rw [ht1] at a1; rw [ht2] at b1
+  have a1' := tryEvalConst_of_ok _ _ a1
+  have b1' := tryEvalConst_of_ok _ _ b1
   refine ⟨wrap ty (v1 + v2), ?_, wrap_inRange ty _, ?_⟩
   · rcases hop with rfl | rfl <;>
-      simp [onInstr, isConst, hy, a1, a2, b1, b2, Op.symbol, chainConst, Model.ConstFold.cast, correct_eq_wrap, hyt]
+      simp [onInstr, isConst, hy, a1', a2, b1', b2, Op.symbol, chainConst, Model.ConstFold.cast, correct_eq_wrap, hyt]
   · intro yv _
     rcases hop with rfl | rfl
     · simp only [binop, Option.bind_some, Option.some.injEq]
@@ -215,6 +221,64 @@ theorem mixed_chain_kept (t : Typ) (y c1 c2 : Expr) (hy : isConst y = false) :
     onInstr (.binop t "+" (.binop t "-" y c1) c2) = .ok .keep := by
   simp [onInstr, isConst, hy]
 
+/-! ### operations that are undefined for their constant operands are left for run time -/
+
+/-- Whatever the instruction: the exceptions of an undefined operation (`x % 0`, negative shift
+    count) never escape from `on_block`. -/
+theorem undefined_never_escapes (ins : Expr) (x : Err) (h : onInstr ins = .error x) :
+    x ≠ .ZeroDivisionError ∧ x ≠ .ValueError := by
+  simp only [onInstr] at h
+  split at h
+  · simp at h
+  · split at h
+    · split at h
+      · rename_i e he; simp at h; subst h; exact tryEvalConst_no_raise _ _ he
+      · simp at h
+      · simp at h
+    · repeat' split at h
+      all_goals try (simp at h; done)
+      all_goals (rename_i e he; simp at h; subst h; first | exact tryEvalConst_no_raise _ _ he | skip)
+      all_goals simp
+
+/-- For every well-formed constant tree over the folder's operators — defined at run time or not —
+    the pass raises nothing: it either replaces the instruction by an in-range constant of its type
+    or leaves it alone. -/
+theorem never_raises (e : SExpr) (hwf : e.WF) (hf : AllFoldable e) :
+    onInstr (embed e) = .ok .skip ∨ onInstr (embed e) = .ok .keep ∨
+      ∃ v, onInstr (embed e) = .ok (.replace (tyOf e.ty) v) ∧ InRange e.ty v := by
+  cases e with
+  | const ty c => exact Or.inl rfl
+  | cast ty s =>
+    rcases tryEvalConst_embed_total (.cast ty s) hwf hf with ⟨v, hv⟩ | h
+    · have hi : isConst (embed (.cast ty s)) = true ∨ isConst (embed (.cast ty s)) = false := by
+        cases isConst (embed (.cast ty s)) <;> simp
+      rcases hi with hi | hi
+      · have ho : onInstr (embed (.cast ty s)) = .ok (.replace (tyOf ty) v) := by
+          simp only [embed] at hi hv ⊢; simp [onInstr, hi, hv, SExpr.ty]
+        exact Or.inr (Or.inr ⟨v, ho, (cast_in_range ty _ _ _ (by simpa [embed] using ho)).2⟩)
+      · exact Or.inr (Or.inl (by simp only [embed] at hi ⊢; simp [onInstr, hi]))
+    · have hi : isConst (embed (.cast ty s)) = true ∨ isConst (embed (.cast ty s)) = false := by
+        cases isConst (embed (.cast ty s)) <;> simp
+      rcases hi with hi | hi
+      · exact Or.inr (Or.inl (by simp only [embed] at hi h ⊢; simp [onInstr, hi, h]))
+      · exact Or.inr (Or.inl (by simp only [embed] at hi ⊢; simp [onInstr, hi]))
+  | binop ty op a b =>
+    have hc : isConst (embed (.binop ty op a b)) = true := by
+      have key : ∀ e : SExpr, AllFoldable e → isConst (embed e) = true := by
+        intro e; induction e with
+        | const _ _ => intro _; rfl
+        | cast _ s ih => intro h; simpa [embed, isConst] using ih h
+        | binop _ o x y ihx ihy =>
+          intro h; obtain ⟨h1, h2, h3⟩ := h
+          unfold Foldable at h1
+          simp [embed, isConst, h1, ihx h2, ihy h3]
+      exact key _ hf
+    rcases tryEvalConst_embed_total (.binop ty op a b) hwf hf with ⟨v, hv⟩ | h
+    · have ho : onInstr (embed (.binop ty op a b)) = .ok (.replace (tyOf ty) v) := by
+        simp only [embed] at hc hv ⊢; simp [onInstr, hc, hv, SExpr.ty]
+      exact Or.inr (Or.inr ⟨v, ho, (fold_in_range ty _ _ _ _ _ (by simpa [embed] using ho)).2⟩)
+    · exact Or.inr (Or.inl (by simp only [embed] at hc h ⊢; simp [onInstr, hc, h]))
+
 /-! ### non-vacuity / concrete instances (tests, labelled as such) -/
 
 -- the two defects this property found (before the `fix:` commit), as kernel-checked facts:
@@ -238,8 +302,9 @@ example : (SExpr.binop .i8 .add (.cast .i8 (.const .u16 300)) (.const .i8 100)).
     ∧ (SExpr.binop .i8 .add (.cast .i8 (.const .u16 300)) (.const .i8 100)).eval = some (-112) := by
   refine ⟨by simp [SExpr.WF, SExpr.ty]; decide, by simp [AllFoldable]; decide, by decide +kernel⟩
 example : isConst (.other i8 0) = false ∧ (Expr.other i8 0).ty = tyOf .i8 := by decide
--- undefined operands: the pass raises (outside the property; recorded in notes/C38.md)
-example : onInstr (.binop i8 "%" (.const i8 5) (.const i8 0)) = .error .ZeroDivisionError := by decide +kernel
-example : onInstr (.binop i8 "<<" (.const i8 1) (.const i8 (-1))) = .error .ValueError := by decide +kernel
+-- operations that are undefined for their constant operands are left for run time (no exception)
+example : onInstr (.binop i8 "%" (.const i8 5) (.const i8 0)) = .ok .keep := by decide +kernel
+example : onInstr (.binop i8 "<<" (.const i8 1) (.const i8 (-1))) = .ok .keep := by decide +kernel
+example : evalConst (.binop i8 "%" (.const i8 5) (.const i8 0)) = .error .ZeroDivisionError := by decide +kernel
 
 end Props.C38
